@@ -199,7 +199,9 @@ def _hook_delta(interp, fi, recv, args, kwargs, res, ev):
             continue
         if name == "__call__" and len(args) >= 2 and not (args[1].has_const() and args[1].const is None):
             sym = args[1]
-            eps = (sym.types is not None and sym.types and sym.types <= {FA_EPSILON}) or EPS_TAG in sym.deps
+            eps_sites = interp.tagged_sites.get(EPS_TAG, ())
+            eps = (sym.types is not None and sym.types and sym.types <= {FA_EPSILON}) or \
+                any(l[0] in eps_sites for l in sym.alias)
             only_eps = sym.types is not None and sym.types and sym.types <= {FA_EPSILON}
             if eps:
                 tags.add(("DELTA_EPS", owner))
